@@ -1049,10 +1049,11 @@ fn run_group(rng: &mut Rng, stream: bool, id: &str, prof: &Profile) {
                 break;
             } else if !last_o.is_empty() && rng.chance(7) {
                 // the membership changes while the group is being drained: an insert, an extend (into
-                // whatever slots are vacant by now) or a removal; the consumer polls again afterwards
+                // whatever slots are vacant by now), a removal, or an explicit reserve that really grows the
+                // tables (while live members sit behind holes of the slab); the consumer polls again afterwards
                 g_woken = true;
                 drain_budget = usize::MAX;
-                *rng.pick(&[0usize, 75, 86])
+                *rng.pick(&[0usize, 75, 86, 82])
             } else if g_woken || last_o.starts_with('S') || last_o.is_empty() {
                 30
             } else {
@@ -1164,7 +1165,7 @@ fn run_group(rng: &mut Rng, stream: bool, id: &str, prof: &Profile) {
             }
             ks();
         } else if r < 85 {
-            let k = rng.below(6);
+            let k = if prof.is("drain") { grp.capacity() + 1 + rng.below(3) } else { rng.below(6) };
             block.ops.push(format!("v {k}"));
             grp.reserve(k);
             ks();
